@@ -840,3 +840,11 @@ impl<E: Effect, R: CommandReceiver<E>, S: EventSender<E>> Worker<E, R, S> {
         Ok(())
     }
 }
+
+/// Verification hook (feature `verif`): read-only access to the worker's executor.
+#[cfg(feature = "verif")]
+impl<E: Effect, R: CommandReceiver<E>, S: EventSender<E>> Worker<E, R, S> {
+    pub fn verif_executor(&self) -> &Executor<E> {
+        &self.executor
+    }
+}
